@@ -438,7 +438,7 @@ func ZZVerifC15() {
 	bounds[mcrt.Order] = 1
 	bounds[mcrt.Cancel] = 1
 	total := 2
-	budget := 100 * gotime.Second
+	budget := 200 * gotime.Second
 	if thorough {
 		bounds[mcrt.Preempt] = 2
 		bounds[mcrt.Switch] = 2
@@ -469,6 +469,10 @@ func ZZVerifC15() {
 		}
 		for _, rc := range res.Races {
 			fmt.Println("RACE:", rc)
+			bad = true
+		}
+		for _, rc := range res.LockRaces {
+			fmt.Println("RACE (under another lock order):", rc)
 			bad = true
 		}
 		for _, pn := range res.Panics {
@@ -509,6 +513,9 @@ func ZZVerifC15() {
 			}
 			for _, rc := range res.Races {
 				vs = append(vs, viol{z15RaceSig(rc), "C15: data race: " + rc})
+			}
+			for _, rc := range res.LockRaces {
+				vs = append(vs, viol{strings.Replace(z15RaceSig(rc), "C15/race/", "C15/lock-order-race/", 1), "C15: data race under another lock order: " + rc})
 			}
 			for _, p := range res.Panics {
 				site := "?"
